@@ -352,6 +352,10 @@ func (p *encParser) zoo(name string) reflect.Value {
 		z.d = p.iface().(ogorek.Ref)
 		z.e = NamedStr(p.strArg())
 		out = z
+	case "L1":
+		out = zooLocal1(p.intArg(), p.strArg())
+	case "L2":
+		out = zooLocal2(p.intArg(), p.intArg(), p.intArg(), p.strArg(), p.intArg())
 	default:
 		panic("unknown zoo type " + name)
 	}
@@ -362,6 +366,24 @@ func (p *encParser) zoo(name string) reflect.Value {
 }
 
 var _ = math.Pi
+
+// two DIFFERENT struct types with one name (main.local): anything remembered per type must not be
+// keyed by the type's name or printed form
+func zooLocal1(x int, y string) any {
+	type local struct {
+		x int    `pickle:"a"`
+		Y string `pickle:"b"`
+	}
+	return local{x: x, Y: y}
+}
+func zooLocal2(p, q, r int, y string, x int) any {
+	type local struct {
+		P, Q, R int
+		Y       string `pickle:"b"`
+		x       int    `pickle:"a"`
+	}
+	return local{P: p, Q: q, R: r, Y: y, x: x}
+}
 
 // deepString renders a value completely and deterministically (map entries sorted by their rendered
 // text, floats by bit pattern, pointers followed with a cycle guard): used to detect that Encode
